@@ -1,5 +1,5 @@
 /-
-  C01 — `compile_tr_subset` on the fragment: the tail-call set returned by `term` is a subset of
+  C01 — `compile_tr_subset` (every term of the language): the tail-call set returned by `term` is a subset of
   the set it was allowed (the `debug_assert!(tr_.is_subset(tr))` of `iterm_tr`).
 -/
 import JaqVerif.Lemmas.C01Frame
@@ -51,127 +51,130 @@ theorem callC_tr_subset (cx : Cx) (loc : Locals) (name : String) (ids : List Ter
       · intro x hx; cases hx
       · intro x hx; cases hx
 
-theorem tr_subset_aux : ∀ (N : Nat) (t : Term), sizeOf t < N → inFragment t = true →
-    ∀ (cx : Cx) (loc : Locals) (tr : Tr) (st : St), ∀ x ∈ (term cx loc tr t st).2.1, x ∈ tr := by
+/-- the tail-call set returned for `t` is within the set allowed, whatever the context -/
+def TrT (t : Term) : Prop := ∀ (cx : Cx) (loc : Locals) (tr : Tr) (st : St), ∀ x ∈ (term cx loc tr t st).2.1, x ∈ tr
+
+theorem it_tr (cx : Cx) (loc : Locals) (tr : Tr) (t : Term) (st : St) :
+    (it cx loc tr t st).2.1 = (term cx loc tr t (st.insert .id).2).2.1 := rfl
+
+theorem compileIts_tr {N : Nat} (ih : ∀ t : Term, sizeOf t < N → TrT t) :
+    ∀ (its : List (Term × Term)), sizeOf its ≤ N → ∀ cx loc tr st, ∀ c ∈ (compileIts cx loc tr its st).1, ∀ x ∈ c.2.2, x ∈ tr
+  | [], _, cx, loc, tr, st => by rw [compileIts_nil]; intro c hc; cases hc
+  | (c, t) :: its, h, cx, loc, tr, st => by
+    simp at h
+    rw [compileIts_cons]
+    intro c' hc' x hx
+    simp only [List.mem_cons] at hc'
+    rcases hc' with rfl | hc'
+    · exact ih t (by omega) cx loc tr _ x hx
+    · exact compileIts_tr ih its (by omega) _ _ _ _ c' hc' x hx
+
+theorem iteBuild_tr : ∀ (cits : List (TermId × TermId × Tr)) (base : CTerm × Tr × St) (x : TermId),
+    x ∈ (iteBuild cits base).2.1 → x ∈ base.2.1 ∨ ∃ c ∈ cits, x ∈ c.2.2
+  | [], base, x, h => Or.inl h
+  | c :: cits, base, x, h => by
+    rw [iteBuild_cons] at h
+    simp only [iteStep] at h
+    rcases Tr.mem_union h with h | h
+    · exact Or.inr ⟨c, by simp, h⟩
+    · rcases iteBuild_tr cits base x h with h | ⟨c', hc', h⟩
+      · exact Or.inl h
+      · exact Or.inr ⟨c', by simp [hc'], h⟩
+
+theorem tr_subset_aux : ∀ (N : Nat) (t : Term), sizeOf t < N → TrT t := by
   intro N
   induction N with
   | zero => intro t h; omega
   | succ N ih =>
-    intro t hsz hfr cx loc tr st x hx
+    intro t hsz cx loc tr st x hx
     cases t with
     | id => rw [term_id] at hx; cases hx
-    | recurse => simp [inFragment] at hfr
+    | recurse => rw [term_recurse] at hx; cases hx
     | num s => rw [term_num] at hx; cases hx
     | str fmt parts =>
       cases fmt with
-      | some f => simp [inFragment] at hfr
-      | none =>
-        cases parts with
-        | nil => simp [inFragment] at hfr
-        | cons p ps =>
-          cases p with
-          | interp t => simp [inFragment] at hfr
-          | lit s =>
-            cases ps with
-            | nil => rw [term_str1] at hx; cases hx
-            | cons _ _ => simp [inFragment] at hfr
+      | none => rw [term_str] at hx; cases hx
+      | some f => rw [term_str_fmt] at hx; cases hx
     | arr t =>
       cases t with
-      | none => simp [inFragment] at hfr
+      | none => rw [term_arr_none] at hx; cases hx
       | some f => rw [term_arr] at hx; cases hx
-    | obj kvs => simp [inFragment] at hfr
+    | obj kvs => rw [term_obj] at hx; cases hx
     | neg f => rw [term_neg] at hx; cases hx
     | pipe l pat r =>
+      simp at hsz
       cases pat with
       | none =>
-        simp only [inFragment, Bool.and_eq_true] at hfr
         rw [term_pipe_none] at hx
-        exact ih r (by simp at hsz; omega) hfr.2 cx loc tr _ x hx
+        exact ih r (by omega) cx loc tr _ x hx
       | some p =>
-        cases p with
-        | var y =>
-          simp only [inFragment, Bool.and_eq_true] at hfr
-          rw [term_pipe_var] at hx
-          exact ih r (by simp at hsz; omega) hfr.2 cx _ tr _ x hx
-        | arr _ => simp [inFragment] at hfr
-        | obj _ => simp [inFragment] at hfr
+        rw [term_pipe_some] at hx
+        exact ih r (by omega) cx _ tr _ x hx
     | binop l op r =>
-      simp only [inFragment, Bool.and_eq_true] at hfr
+      simp at hsz
       by_cases h1 : op = .comma
       · subst h1; rw [term_comma] at hx
         rcases Tr.mem_union hx with h | h
-        · exact ih l (by simp at hsz; omega) hfr.1.2 cx loc tr _ x h
-        · exact ih r (by simp at hsz; omega) hfr.2 cx loc tr _ x h
+        · exact ih l (by omega) cx loc tr _ x h
+        · exact ih r (by omega) cx loc tr _ x h
       · by_cases h2 : op = .alt
         · subst h2; rw [term_alt] at hx
-          exact ih r (by simp at hsz; omega) hfr.2 cx loc tr _ x hx
+          exact ih r (by omega) cx loc tr _ x hx
         · rw [term_bop _ _ _ _ _ _ _ h1 h2] at hx; cases hx
     | label y f => rw [term_label] at hx; cases hx
     | brk y => rw [term_brk] at hx; cases hx
     | fold name xs pat args =>
-      cases pat with
-      | arr _ => simp [inFragment] at hfr
-      | obj _ => simp [inFragment] at hfr
-      | var y =>
-        simp only [inFragment, Bool.and_eq_true] at hfr
+      simp at hsz
+      cases args with
+      | nil => rw [term_fold_short0] at hx; cases hx
+      | cons init args =>
         cases args with
-        | nil => rw [term_fold_short0] at hx; cases hx
-        | cons init args =>
-          cases args with
-          | nil => rw [term_fold_short1] at hx; cases hx
-          | cons update rest =>
-            simp only [inFragmentList, Bool.and_eq_true] at hfr
-            rw [term_fold_var] at hx
+        | nil => rw [term_fold_short1] at hx; cases hx
+        | cons update rest =>
+          rw [term_fold] at hx
+          cases rest with
+          | nil =>
+            simp only at hx
+            split at hx
+            · cases hx
+            · split at hx <;> cases hx
+          | cons proj rest =>
             cases rest with
+            | cons _ _ => cases hx
             | nil =>
+              simp at hsz
               simp only at hx
               split at hx
+              · exact ih proj (by omega) cx _ tr _ x hx
               · cases hx
-              · split at hx <;> cases hx
-            | cons proj rest =>
-              cases rest with
-              | cons _ _ => cases hx
-              | nil =>
-                simp only [inFragmentList, Bool.and_eq_true] at hfr
-                simp only at hx
-                split at hx
-                · exact ih proj (by simp at hsz; omega) hfr.2.2.2.1 cx _ tr _ x hx
-                · cases hx
     | tryCatch f c =>
       cases c with
-      | none => simp [inFragment] at hfr
+      | none => rw [term_try_none] at hx; cases hx
       | some c => rw [term_try] at hx; cases hx
     | ite its els =>
-      cases its with
-      | nil => simp [inFragment] at hfr
-      | cons ct rest =>
-        obtain ⟨c, t⟩ := ct
-        cases rest with
-        | cons _ _ => cases els <;> simp [inFragment] at hfr
-        | nil =>
-          cases els with
-          | none =>
-            simp only [inFragment, Bool.and_eq_true] at hfr
-            rw [term_ite1_none] at hx
-            rcases Tr.mem_union hx with h | h
-            · exact ih t (by simp at hsz; omega) hfr.2 cx loc tr _ x h
-            · cases h
-          | some e =>
-            simp only [inFragment, Bool.and_eq_true] at hfr
-            rw [term_ite1_some] at hx
-            rcases Tr.mem_union hx with h | h
-            · exact ih t (by simp at hsz; omega) hfr.1.2 cx loc tr _ x h
-            · exact ih e (by simp at hsz; omega) hfr.2 cx loc tr _ x h
+      simp at hsz
+      cases els with
+      | none =>
+        rw [term_ite_none] at hx
+        rcases iteBuild_tr _ _ x hx with h | ⟨c, hc, h⟩
+        · cases h
+        · exact compileIts_tr ih its (by omega) cx loc tr st c hc x h
+      | some e =>
+        simp at hsz
+        rw [term_ite_some] at hx
+        rcases iteBuild_tr _ _ x hx with h | ⟨c, hc, h⟩
+        · exact ih e (by omega) cx loc tr _ x h
+        · exact compileIts_tr ih its (by omega) cx loc tr st c hc x h
     | defs ds f =>
-      simp only [inFragment, Bool.and_eq_true] at hfr
+      simp at hsz
       rw [term_defs] at hx
-      exact ih f (by simp at hsz; omega) hfr.2 cx _ tr _ x hx
+      exact ih f (by omega) cx _ tr _ x hx
     | call name args =>
       rw [term_call] at hx
       split at hx
       · cases hx
       · exact callC_tr_subset _ _ _ _ _ _ x hx
     | var y => rw [term_var] at hx; cases hx
-    | path f parts => simp [inFragment] at hfr
+    | path f parts => rw [term_path] at hx; cases hx
 
 end Jaq.Core
